@@ -499,7 +499,7 @@ func tail(s []string, n int) []string {
 // the fixpoint of C02 within a generous bound of virtual time - by its own means: a controller that forgets to ask
 // for the next step, or whose progress depends on a loop nobody runs, stays short of it.
 func TestC02Queue(t *testing.T) {
-	rec := evid.New("TestC02Queue", "C02", "event-driven scheduling (see TestC14Queue): 2-4 nodes, reconcileFrequency in {1s, 2s, 10s}, maxUnavailable 1 or 100%, no canary / auto canary (duration 1m) / manual canary validated by the user at the end; 2-6 actions from {template change (A, B, C), node added, node removed, node tainted (not tolerated), pod deleted by the user, pod not Ready until the kubelet heals it} with 0-30s of event-driven running in between; then the system runs until the C02 fixpoint holds (one Ready pod of the live template per eligible node, nothing else, active set = spec.template, no canary left) or 90s + 40 x reconcileFrequency of virtual time have passed since the last change; monitors create-eligible, create-once, promotion-rule, status-function after every reconcile; non-trivial = at least one template change and one node or pod disturbance; distinct by configuration")
+	rec := evid.New("TestC02Queue", "C02", "event-driven scheduling (see TestC14Queue): 2-4 nodes, reconcileFrequency in {1s, 2s, 10s}, maxUnavailable 1 or 100%, no canary / auto canary (duration 1m) / manual canary validated by the user at the end; 2-6 actions from {template change (A, B, C), node added, node removed, node tainted (not tolerated), pod deleted by the user, pod not Ready until the kubelet heals it, newest pod evicted (phase Failed)} with 0-30s of event-driven running in between; then the system runs until the C02 fixpoint holds (one Ready pod of the live template per eligible node, nothing else, active set = spec.template, no canary left) or 90s + 40 x reconcileFrequency of virtual time have passed since the last change; monitors create-eligible, create-once, promotion-rule, status-function after every reconcile; non-trivial = at least one template change and one node or pod disturbance; distinct by configuration")
 	t.Cleanup(func() {
 		if !t.Failed() {
 			rec.Done()
@@ -525,7 +525,7 @@ func c02Queue(rec *evid.Rec, rt *rapid.T, prop string) {
 		var acts []act
 		for i := 0; i < na; i++ {
 			acts = append(acts, act{
-				Kind: rapid.SampledFrom([]string{"template-B", "template-C", "template-A", "node-added", "node-removed", "node-tainted", "pod-deleted", "pod-unready"}).Draw(rt, fmt.Sprintf("a%d-kind", i)),
+				Kind: rapid.SampledFrom([]string{"template-B", "template-C", "template-A", "node-added", "node-removed", "node-tainted", "pod-deleted", "pod-unready", "pod-evicted"}).Draw(rt, fmt.Sprintf("a%d-kind", i)),
 				Run:  rapid.SampledFrom([]time.Duration{0, 300 * time.Millisecond, 1200 * time.Millisecond, 5 * time.Second, 30 * time.Second}).Draw(rt, fmt.Sprintf("a%d-run", i)),
 			})
 		}
@@ -652,6 +652,18 @@ func c02Queue(rec *evid.Rec, rt *rapid.T, prop string) {
 					if victim != nil {
 						churn++
 						w.C.Unready(victim.Namespace, victim.Name)
+					}
+				case "pod-evicted":
+					// the newest Ready pod is evicted (phase Failed): the controller replaces it under its failed-pod back-off
+					var newest *corev1.Pod
+					for _, p := range w.C.Pods() {
+						if p.DeletionTimestamp == nil && oracle.IsReady(p) && (newest == nil || p.CreationTimestamp.After(newest.CreationTimestamp.Time)) {
+							newest = p
+						}
+					}
+					if newest != nil {
+						churn++
+						w.C.SetPhase(newest.Namespace, newest.Name, corev1.PodFailed, "Evicted")
 					}
 				}
 			})
